@@ -499,3 +499,58 @@ def c05_20(ctx, r):
     if n < 2:
         raise AnalysisError("C05.20", f"{n} stores into the persisted lists recognised in _make_batch")
     r.ok(f"accumulators {accs}, fed through {sorted(feeders)}")
+    # the candidate listers hand _make_batch cluster records as well (both siblings: by count and by time)
+    for lname in ("HpcSubmitter._get_available_jobs", "HpcSubmitter._get_available_jobs_by_time"):
+        lf = ctx.fn(lname, "C05.20")
+        m = 0
+        for x in iter_own(lf.node):
+            v = None
+            if isinstance(x, ast.Assign) and len(x.targets) == 1 and isinstance(x.targets[0], ast.Subscript) and isinstance(x.targets[0].value, ast.Name):
+                v = x.value
+            elif isinstance(x, ast.Call) and isinstance(x.func, ast.Attribute) and x.func.attr == "append" and len(x.args) == 1 and not isinstance(x.args[0], ast.Tuple):
+                v = x.args[0]
+            if v is None and isinstance(x, ast.ListComp) and len(x.generators) == 1:
+                v = x.elt          # `[job for job in ... if ...]` form of the same list
+            if v is None:
+                continue
+            t = ctx.ty.expr_type(lf, v)
+            if (t is None or t[0] != "cls") and isinstance(x, ast.ListComp) and isinstance(v, ast.Name):
+                # the comprehension variable: typed by what it iterates
+                it = ctx.ty.expr_type(lf, x.generators[0].iter)
+                t = it[1] if it and it[0] == "list" else t
+            if t is None or t[0] != "cls":
+                continue
+            m += 1
+            r.check(type_is(ctx, t, "Job"), f"{lname.split('.')[-1]} lists cluster job records", key_of(lf, f"candidate list receives {ctx.src(v)}"), lf.loc(x),
+                    f"`{ctx.src(x)}` puts `{ctx.src(v)}` - the configuration's job - among the batch candidates: blockedness is then judged on the *original* blocked_by of config.json and written back by the status "
+                    "update, so a dependent whose blocker finished in an earlier batch is never submitted", "a job whose blockers all have outcomes is left unsubmitted only when the max-nodes limit is reached")
+        if m < 1:
+            raise AnalysisError("C05.20", f"no typed candidate store recognised in {lname}")
+
+
+@rule(P, "C05.21", "T2", "a try-submit-jobs round always reaches the submitter: nothing returns from submit_jobs before the local run or the HPC round", min_obligations=1)
+def c05_21(ctx, r):
+    """`one try-submit-jobs either hands a batch or completes the submission` - and the recovery round the documentation relies on is run from
+    wherever the user is (a login node: no SLURM_NODEID, not 'the manager node').  JobSubmitter.submit_jobs must therefore reach
+    _submit_to_hpc() (or the local runner) on every normal path; an early return for some class of hosts makes every recovery attempt from
+    those hosts a no-op."""
+    fn = ctx.fn("JobSubmitter.submit_jobs", "C05.21")
+    cfg = ctx.cfg(fn)
+    work = [n for s in ctx.sites(fn, short="JobSubmitter._submit_to_hpc") for n in ctx.nodes_of(fn, s.node)] + [n for s in ctx.sites(fn, short="JobRunner.run_jobs") for n in ctx.nodes_of(fn, s.node)]
+    if len(work) < 2:
+        raise AnalysisError("C05.21", f"{len(work)} submission sites (HPC round, local run) in JobSubmitter.submit_jobs")
+    ok = always_followed_by(ctx, fn, cfg.entry, work + [cfg.raise_exit], NORMAL_KINDS)
+    rets = [n for n in cfg.nodes if n.kind == "stmt" and isinstance(n.ast, ast.Return) and not any(dominated_by(ctx, fn, n, [w]) for w in work)]
+    r.check(ok, "every normal path of submit_jobs runs the HPC round or the local run", key_of(fn, "round returns before submitting"), fn.loc(rets[0].ast) if rets else fn.loc(fn.node),
+            "JobSubmitter.submit_jobs can return normally without having called _submit_to_hpc() or the local runner" + (f" (guards of the early return: {sorted(f for f, p in guard_forms(ctx, fn, rets[0]))[:3]})" if rets else "") +
+            ": a try-submit-jobs on that path neither hands a batch nor completes the submission - the recovery round is a no-op there", "one try-submit-jobs either hands at least one new batch to the HPC or completes the submission")
+
+
+@rule(P, "C05.22", "T1", "show-status can always poll a carried batch id: an id the scheduler has purged reads as 'gone', not as an error", min_obligations=2)
+def c05_22(ctx, r):
+    """The recovery `also offered by show-status` starts by polling the ids recorded in job_status.json with `squeue -j`.  For an id SLURM has
+    purged squeue fails with 'Invalid job id specified' on *stderr*; check_status must turn exactly that into NONE.  Looking for the text in
+    another stream makes the command raise instead, and show-status dies before it can run try-submit-jobs - every time."""
+    from .c18 import c18_7
+
+    c18_7(ctx, r)
